@@ -402,6 +402,33 @@ impl<B: Backend> World<B> {
                     self.violate(&["C01", "C04"], "read_guard_session", format!("read guard showed {:?} (stored {:?}); try_write succeeded: {w}; try_read succeeded: {r}", v, self.model.value));
                 }
             }
+            CountsGuarded(i, n, m) => {
+                if !self.counts {
+                    return;
+                }
+                self.counters.inc("ops.counts_under_read_guards");
+                let subs: Vec<&B::Sub> = self.subs.iter().flatten().take(*m as usize).map(|s| &s.sub).collect();
+                let live = self.model.live_subs();
+                let n_sub_guards = subs.len();
+                if let Some(u) = &self.uniq {
+                    let got = B::u_count_guarded(u, &subs);
+                    if self.stuck("read") {
+                        return;
+                    }
+                    if got != live {
+                        self.violate(&["C19"], "subscriber_count", format!("Observable::subscriber_count = {got} while {} read guard(s) are alive, live subscribers = {live}", n_sub_guards));
+                    }
+                } else if let Some(k) = self.owner_sel(*i) {
+                    let want = (self.model.owners, live, self.model.owners + live, self.model.weaks);
+                    let got = B::s_counts_guarded(self.shared[k].as_ref().unwrap(), *n as usize, &subs);
+                    if self.stuck("read") {
+                        return;
+                    }
+                    if got != want {
+                        self.violate(&["C19"], "handle_counts", format!("while {} + {} read guard(s) are alive: (observable_count, subscriber_count, strong_count, weak_count) = {:?}, live (clones, subscribers, sum, weak refs) = {:?}", n, n_sub_guards, got, want));
+                    }
+                }
+            }
             Get(i) | Read(i) => {
                 let got = if let Some(u) = self.uniq.as_ref() {
                     B::u_get(u)
